@@ -418,7 +418,16 @@ def run(ctx):
                                 pending_perms[cores[t][key].path] = order
                 # compared as multisets: the order of effects that do not depend on each other is a matter of spelling (a
                 # dependence shows in the effect itself: loads carry the number of writes that precede them)
-                if all(sorted(map(str, gs[t])) == sorted(map(str, gs[ref_t])) for t in have):
+                # the copies whose source is identical form groups; a copy written differently agrees if its effects equal
+                # those of some member of the largest group (the key copy's inlined forms differ from map/set in payload
+                # constructors by design, so "all three equal" is not the right test once helpers are inlined)
+                hgroups = {}
+                for t in have:
+                    hgroups.setdefault(repr(forms[t][key]), []).append(t)
+                major = max(hgroups.values(), key=len)
+                ms = {t: sorted(map(str, gs[t])) for t in have}
+                agree = all(t in major or any(ms[t] == ms[m] for m in major) for t in have) and len(major) >= 2
+                if all(ms[t] == ms[ref_t] for t in have) or agree:
                     diffs = []
                     f = cores[ref_t][key]
                     ctx.add(RULE, f, 'sibling(%s)' % key[1], 'ok', 'written differently in the %s copies, but the guarded effects (targets, values, guards, order%s) are identical' % ('/'.join(fams[t] for t in have), ', helpers inlined' if inl else ''),
@@ -534,6 +543,8 @@ def run(ctx):
             n_sym += 1
             if sym:
                 ctx.add(RULE, f, 'symmetry', 'ok', 'guarded effects are invariant under exchanging left and right', props_of(prog, f, c09), f.line)
+            elif G.locally_symmetric(G.gef(prog, f))[0]:
+                ctx.add(RULE, f, 'symmetry', 'ok', 'the function has a one-sided part, but the two outcomes of each of its which-side tests are mirror images relative to the tested parent', props_of(prog, f, c09), f.line)
             else:
                 ctx.add(RULE, f, 'symmetry', 'violation', 'the function distinguishes left from right child, but its effects are not left/right symmetric: %s' % d, props_of(prog, f, c09), f.line, {'difference': d})
     ctx.stat(RULE, sibling_functions=n_sib, mirror_pairs=n_pairs, mirror_chains=n_chains, symmetric_functions=n_sym)
